@@ -27,6 +27,11 @@ Lemma tie_C05 :
   /\ flow_client_Conn_runLoop
      = ["for{"; "select{"; "case"; "recv conn.in"; "conn.dispatch"; "case"; "ctx.Done"; "recv ctx.Done()";
         "conn.wg.Done"; "conn.closeIf"; "return"; "}"; "}"]%string
+  /\ conds_client_Conn_addSTHandlers = []      (* every state handler goes through conn.handle, unconditionally *)
+  /\ conds_client_Conn_dispatch = []
+  /\ conds_client_hSet_dispatch = []           (* no condition under which the wait is skipped *)
+  /\ conds_client_hSet_getHandlers = ["!ok"; "for hn != nil"]%string
+  /\ conds_client_Conn_runLoop = []
   /\ existsb (String.eqb """TOPIC""") var_client_stHandlers = true
   /\ existsb (String.eqb """332""") var_client_stHandlers = true
   /\ existsb (String.eqb """MODE""") var_client_stHandlers = true
